@@ -91,9 +91,9 @@ Ltac jstep :=
   | |- jspec _ _ (jbind (match _ with _ => _ end) _) => apply jspec_bind with (R1 := T); [| intros ? ?]
   | |- jspec _ _ (jbind _ _) => eapply jspec_bind; [| intros ? ?]
   | |- jspec _ _ jget => apply jspec_get
-  | |- jspec _ _ (emit _) => apply jspec_emit; solveF
-  | |- jspec _ _ (txt (if ?b then _ else _)) => destruct b
-  | |- jspec _ _ (txt _) => apply jspec_txt; solveQ
+  | |- jspec _ _ (jemit _) => apply jspec_emit; solveF
+  | |- jspec _ _ (jtxt (if ?b then _ else _)) => destruct b
+  | |- jspec _ _ (jtxt _) => apply jspec_txt; solveQ
   | |- jspec _ _ (jmod _) => jmodt
   | |- jspec _ _ (match float_node_string ?f with _ => _ end) => let E := fresh "Ef" in destruct (float_node_string f) eqn:E
   | |- jspec _ _ (match ?x with _ => _ end) => destruct x
@@ -259,7 +259,7 @@ Proof.
   apply jspec_ret. solveF.
   inversion Fa; subst.
   assert (Hp : forall ns : bool, jsp (Forall Q)
-            (if ns then emit ([CText t_op_open] ++ expr ++ [CText t_nullsafe]);;; jret (CText t_rpar :: closers) else jret closers)).
+            (if ns then jemit ([CText t_op_open] ++ expr ++ [CText t_nullsafe]);;; jret (CText t_rpar :: closers) else jret closers)).
   { intros [|]. eapply jspec_bind. apply jspec_emit. solveF. intros _ _. apply jspec_ret. solveF. apply jspec_ret; auto. }
   destruct a; try (apply IH; auto; fail).
   - eapply jspec_bind. apply Hp. intros cl Fcl. apply IH; auto. solveF.
@@ -386,7 +386,7 @@ Proof.
 Qed.
 
 (* ---- messages ---- *)
-Lemma sp_msg_children f l : Forall Pn l -> jsp T (msg_children w f l).
+Lemma sp_msg_children f l : Forall Pn l -> jsp T (jmsg_children w f l).
 Proof.
   revert l. induction f as [|f IHf]; intros l F; cbn. apply jspec_stuck; intros ? ?; discriminate.
   destruct l as [|x r]. jgo. inversion F; subst.
@@ -406,7 +406,7 @@ Definition Pq (x : node) : Prop := Pn x \/ exists p l, x = NList p l /\ Forall P
 Lemma Pn_Pq l : Forall Pn l -> Forall Pq l.
 Proof. intro F. eapply Forall_impl; [|exact F]. intros a Ha. left; exact Ha. Qed.
 
-Lemma find_placeholder_Pn f q name b : Forall Pq q -> find_placeholder f q name = Ok (Some b) -> Pn b.
+Lemma find_placeholder_Pn f q name b : Forall Pq q -> jfind_placeholder f q name = Ok (Some b) -> Pn b.
 Proof.
   revert q. induction f as [|f IH]; intros q Fq E; cbn in E. discriminate.
   destruct q as [|x r]. discriminate. inversion Fq; subst.
@@ -430,7 +430,7 @@ Proof.
     right. exists p, body. auto.
 Qed.
 
-Lemma find_plural_Pn body var x : Forall Pn body -> find_plural body var = Some x -> Pn x.
+Lemma find_plural_Pn body var x : Forall Pn body -> jfind_plural body var = Some x -> Pn x.
 Proof.
   induction body as [|y r IH]; intros F E; cbn in E. discriminate. inversion F; subst.
   destruct y; try (apply IH; auto; fail).
@@ -461,14 +461,14 @@ Section jmpart_ind.
     end.
 End jmpart_ind.
 
-Lemma sp_eval_part body p : Forall Pn body -> jsp T (eval_part w body p).
+Lemma sp_eval_part body p : Forall Pn body -> jsp T (jeval_part w body p).
 Proof.
-  intro Fb. induction p as [t|name|var cases IH] using jmpart_ind'; cbn [eval_part].
+  intro Fb. induction p as [t|name|var cases IH] using jmpart_ind'; cbn [jeval_part].
   - apply sp_write_raw_text.
   - eapply jspec_bind. apply jspec_lift with (R := fun ph => forall b, ph = Some b -> Pn b).
     intros v E b Hb. subst. eapply find_placeholder_Pn; [|exact E]. apply Pn_Pq; auto.
     intros ph Hph. destruct ph as [b|]; jgo.
-  - destruct (find_plural body var) as [x|] eqn:Ef; [|apply jspec_fail].
+  - destruct (jfind_plural body var) as [x|] eqn:Ef; [|apply jspec_fail].
     pose proof (find_plural_Pn _ _ _ Fb Ef) as Hx.
     destruct x; try apply jspec_fail. pnc Hx. fsplit.
     jstep. jknown. jstep. jstep. jstep. jknown. jstep. jstep. jstep. jknown. apply jspec_bind with (R1 := T); [|intros ? ?].
@@ -480,7 +480,7 @@ Proof.
     jgo.
 Qed.
 
-Lemma sp_eval_parts body ps : Forall Pn body -> jsp T (eval_parts w body ps).
+Lemma sp_eval_parts body ps : Forall Pn body -> jsp T (jeval_parts w body ps).
 Proof. intro Fb. induction ps as [|p r IH]; cbn. jgo. jstep. apply sp_eval_part; auto. exact IH. Qed.
 
 Lemma sp_visit_msg id body : Forall Pn body -> jsp T (visit_msg o w id body).
